@@ -18,6 +18,7 @@ import (
 	"github.com/coredhcp/coredhcp/plugins/prefix"
 	"github.com/insomniacslk/dhcp/dhcpv6"
 
+	"verifmc/checks/c16"
 	"verifmc/ev"
 	"verifmc/explore"
 	"verifmc/pkt"
@@ -645,9 +646,17 @@ func run(r *ev.Run, id string) {
 	}
 }
 
-var runSched = func(r *ev.Run) {}
+var runSched = c16.SchedPart("C08", 6)
 
 func replayCase(r *ev.Run, id string, raw json.RawMessage) {
+	var sc struct {
+		Scenario string `json:"scenario"`
+		Schedule []int  `json:"schedule"`
+	}
+	if json.Unmarshal(raw, &sc) == nil && sc.Scenario != "" {
+		c16.ReplaySchedule(r, id, sc.Scenario, sc.Schedule)
+		return
+	}
 	var c Case
 	if err := json.Unmarshal(raw, &c); err != nil {
 		r.Violate(id+"/replay/bad-file", err.Error(), nil)
